@@ -230,6 +230,7 @@ class Ctx:
         self.counters = {}
         self.maxima = {}
         self.sets = {}
+        self.maps = {}
         self.case = None
 
     def evaluated(self, n=1):
@@ -251,6 +252,12 @@ class Ctx:
         self.sets.setdefault(name, set()).add(
             item if isinstance(item, str) and len(item) <= 16 else h(item, 12))
 
+    def kv(self, name, key, value):
+        """multi-map merged across shards (for global checks in finalize)"""
+        vs = self.maps.setdefault(name, {}).setdefault(key, [])
+        if value not in vs:
+            vs.append(value)
+
     def sample(self, obj, force=False):
         if force or len(self.samples) < MAX_SAMPLES:
             self.samples.append(obj)
@@ -268,12 +275,13 @@ class Ctx:
             samples=self.samples, violations=self.violations,
             inconclusives=self.inconclusives, counters=self.counters,
             maxima=self.maxima, sets={k: sorted(v) for k, v in self.sets.items()},
+            maps=self.maps,
         )
 
 
 def merge(parts):
     out = dict(evaluations=0, sigs=set(), samples=[], violations=[],
-               inconclusives=[], counters={}, maxima={}, sets={})
+               inconclusives=[], counters={}, maxima={}, sets={}, maps={})
     for p in parts:
         out["evaluations"] += p["evaluations"]
         out["sigs"].update(p["sigs"])
@@ -285,6 +293,13 @@ def merge(parts):
             out["maxima"][k] = max(out["maxima"].get(k, v), v)
         for k, v in p["sets"].items():
             out["sets"].setdefault(k, set()).update(v)
+        for name, mp in p.get("maps", {}).items():
+            tgt = out["maps"].setdefault(name, {})
+            for key, vals in mp.items():
+                cur = tgt.setdefault(key, [])
+                for val in vals:
+                    if val not in cur:
+                        cur.append(val)
     # samples: round-robin over shards so they are varied
     i = 0
     while len(out["samples"]) < MAX_SAMPLES:
@@ -417,6 +432,17 @@ def main(modname, argv):
     m = merge(parts) if parts else merge([Ctx(mod.ID, tier, seed).dump()])
     m["inconclusives"].extend(lost)
     shutil.rmtree(work, ignore_errors=True)
+    if hasattr(mod, "finalize"):
+        fctx = Ctx(mod.ID, tier, seed)
+        try:
+            mod.finalize(m, fctx)
+        except Exception:
+            fctx.inconclusive("harness-exception", traceback.format_exc()[-2000:])
+        f = fctx.dump()
+        m["violations"].extend(f["violations"])
+        m["inconclusives"].extend(f["inconclusives"])
+        for k, v in f["counters"].items():
+            m["counters"][k] = m["counters"].get(k, 0) + v
     return report(mod, tier, seed, m, time.time() - t0)
 
 
